@@ -666,9 +666,9 @@ func genCloseRace(t *rapid.T) Case {
 }
 
 func TestCloseRace(t *testing.T) {
-	vfrun.Run(t, vfrun.Prop[Case]{Property: "C11", Name: "TestCloseRace", Gen: genCloseRace, Check: check}, vfrun.N(1200, 12000))
+	vfrun.Run(t, vfrun.Prop[Case]{Property: "C11", Name: "TestCloseRace", Gen: genCloseRace, Check: check}, vfrun.N(1200, 60000))
 }
 
 func TestSessions(t *testing.T) {
-	vfrun.Run(t, vfrun.Prop[Case]{Property: "C11", Name: "TestSessions", Gen: gen, Check: check}, vfrun.N(1000, 10000))
+	vfrun.Run(t, vfrun.Prop[Case]{Property: "C11", Name: "TestSessions", Gen: gen, Check: check}, vfrun.N(1000, 50000))
 }
